@@ -1,11 +1,15 @@
 (* C11 - Beat to time conversion matches the exact timeline for all event interleavings.
-   Statements only.  PARTIAL: the theorems below carry the offset law, the ordering of events, the
-   monotonicity of the state machine's times and the warp coalescing invariants, for every timing data
-   in the property's domain [dom].  The closed form (sum over elapsed beats outside the warp union plus
-   pauses passed) and the redundant-BPM law are established by the correspondence check against an
-   independent exact-rational evaluation (DESIGN.md, C11), not by a theorem.  The binary64 gap is measured. *)
-From Coq Require Import List ZArith QArith Bool Sorting.Sorted.
-From SV Require Import Sx Beat Engine Generated.Tables Proofs.EngineFacts.
+   Statements only.  The closed form is carried by three theorems that together determine time_at on
+   every timing data of the property's domain [dom]: the line before beat zero (C11_before_zero), the
+   anchor at beat zero (C11_anchor_zero), and the interval law (C11_interval_law): across any stretch of
+   beats on which the seconds-per-beat rate - zero inside the union of the raw warps, sixty over the BPM in
+   force outside - is constant, time advances by rate x beats plus the full length of every stop whose
+   STOP_END key and every delay whose DELAY_END key is passed.  Monotonicity in (beat, tag), the offset
+   law, the BPM reported for a beat and the ordering / coalescing invariants are separate theorems.
+   Left to the correspondence: the binary64 gap (measured, 1e-9 s), and the redundant-BPM law as a
+   statement about two timing data (it follows from the interval law, whose premises do not change). *)
+From Coq Require Import List ZArith QArith Bool Sorting.Sorted Lia Lqa.
+From SV Require Import Sx Beat Engine Generated.Tables Proofs.EngineFacts Proofs.Hittable Proofs.TimeLaw.
 Import ListNotations.
 Open Scope Q_scope.
 
@@ -51,6 +55,60 @@ Proof.
 Qed.
 Print Assumptions C11_step_law.
 
+
+(* ---- the closed form ---- *)
+(* the model's state list for timing data whose first BPM is on beat zero *)
+Theorem C11_states_of_domain : forall td b0 v0 rest, td_bpms td = (b0, v0) :: rest -> b0 == 0 ->
+  states td = EOk (sts td v0).
+Proof. exact states_is_sts. Qed.
+Print Assumptions C11_states_of_domain.
+
+(* before beat zero the first BPM applies *)
+Theorem C11_before_zero : forall td v0, dom td -> forall b tag, b < 0 ->
+  time_at (sts td v0) (init_state td v0) b tag == - td_offset td + b * 60 / v0.
+Proof. exact time_before_zero. Qed.
+Print Assumptions C11_before_zero.
+
+(* beat zero is at minus the offset *)
+Theorem C11_anchor_zero : forall td b0 v0 rest, dom td -> td_bpms td = (b0, v0) :: rest ->
+  time_at (sts td v0) (init_state td v0) 0 tBPM == - td_offset td.
+Proof. exact time_at_zero. Qed.
+Print Assumptions C11_anchor_zero.
+
+(* [is_rate td x c]: c seconds per beat at beat x - 0 when x lies in the union of the raw warps
+   (start included, end excluded), otherwise 60 / v for the row (b, v) of BPMS with the greatest b <= x.
+   [pauses_between td b1 t1 b2 t2]: the sum of the stops whose (beat, STOP_END) key and of the delays
+   whose (beat, DELAY_END) key lies in ((b1,t1), (b2,t2)]. *)
+Theorem C11_interval_law : forall td b0 v0 rest, dom td -> td_bpms td = (b0, v0) :: rest -> b0 == 0 ->
+  forall b1 t1 b2 t2 c,
+  0 <= b1 -> b1 <= b2 -> (2 <= t1)%Z -> (2 <= t2)%Z -> (b1 == b2 -> (t1 <= t2)%Z) ->
+  (forall x, b1 <= x -> x < b2 -> is_rate td x c) ->
+  time_at (sts td v0) (init_state td v0) b2 t2 ==
+  time_at (sts td v0) (init_state td v0) b1 t1 + c * (b2 - b1) + pauses_between td b1 t1 b2 t2.
+Proof. exact time_interval_law. Qed.
+Print Assumptions C11_interval_law.
+
+(* time never decreases as (beat, tag) increases, negative beats included *)
+Theorem C11_time_monotone : forall td b0 v0 rest, dom td -> td_bpms td = (b0, v0) :: rest -> b0 == 0 ->
+  forall b1 t1 b2 t2, b1 <= b2 -> (2 <= t1)%Z -> (2 <= t2)%Z -> (b1 == b2 -> (t1 <= t2)%Z) ->
+  time_at (sts td v0) (init_state td v0) b1 t1 <= time_at (sts td v0) (init_state td v0) b2 t2.
+Proof. exact time_at_monotone_all. Qed.
+Print Assumptions C11_time_monotone.
+
+(* the BPM reported for a beat is the value of the last BPM change at or before it (the first BPM before zero) *)
+Theorem C11_bpm_at : forall td b0 v0 rest, dom td -> td_bpms td = (b0, v0) :: rest -> b0 == 0 ->
+  forall b, (0 <= b -> bpm_in_force td b (bpm_at (sts td v0) (init_state td v0) b)) /\
+            (b < 0 -> bpm_at (sts td v0) (init_state td v0) b = v0).
+Proof.
+  intros td b0 v0 rest D H E b. split; [apply (bpm_at_in_force td b0 v0 rest D H E)|apply bpm_before_zero].
+Qed.
+Print Assumptions C11_bpm_at.
+
+(* the merged events are strictly ordered: no two share a (beat, tag) key *)
+Theorem C11_events_strict : forall td, dom td -> StronglySorted (fun a b => ev_lt a b = true) (events td).
+Proof. exact events_strict. Qed.
+Print Assumptions C11_events_strict.
+
 Theorem C11_event_tag_order :
   Tables.event_tags = [([87;65;82;80]%N, 0%Z); ([87;65;82;80;95;69;78;68]%N, 1%Z); ([66;80;77]%N, 2%Z); ([68;69;76;65;89]%N, 3%Z);
                        ([68;69;76;65;89;95;69;78;68]%N, 4%Z); ([83;84;79;80]%N, 5%Z); ([83;84;79;80;95;69;78;68]%N, 6%Z)].
@@ -67,3 +125,18 @@ Example C11_example :
       Qeq_bool (time_at sts d 6 tSTOP) (11 # 4) && Qeq_bool (time_at sts d 7 tSTOP) 3 && Qeq_bool (bpm_at sts d 5) 240
   | _ => false end = true.
 Proof. vm_compute. reflexivity. Qed.
+
+(* non-vacuity of the interval law: on ex_td the rate is 1/2 s per beat on [0, 4), and the law gives the value computed above *)
+Example C11_interval_premises :
+  dom ex_td /\ (forall x, 0 <= x -> x < 4 -> is_rate ex_td x (1 # 2)) /\ (forall x, 4 <= x -> x < 6 -> is_rate ex_td x 0).
+Proof.
+  split; [|split].
+  - constructor; unfold ex_td; cbn [td_bpms td_stops td_delays td_warps td_offset];
+      try (repeat constructor; cbn; unfold Qlt, Qle; simpl; lia).
+  - intros x H0 H4. right. split.
+    + intros (s & l & [Hin|[]] & A & B). inversion Hin; subst. lra.
+    + exists 120. split; [|reflexivity]. exists 0. split; [left; reflexivity|]. split; [exact H0|].
+      intros b' v' [Hin|[Hin|[]]] Hle; inversion Hin; subst; lra.
+  - intros x H4 H6. left. split; [|reflexivity]. exists 4, 2. split; [left; reflexivity|]. split; [exact H4|].
+    assert (E : tick_round 2 == 2) by (vm_compute; reflexivity). rewrite E. lra.
+Qed.
